@@ -76,7 +76,24 @@ def diag_entries():
         m, V = corpus.space("tetrahedron", "P", 1)
         u, v = TrialFunction(V), TestFunction(V)
         return [inner(u, v) * ufl.ds + inner(grad(u), grad(v)) * dx]
-    return [corpus.Entry("diag_p2", p2), corpus.Entry("diag_vec", vec), corpus.Entry("diag_mixed", mixed), corpus.Entry("diag_facet", facet)]
+    def interior():
+        m, V = corpus.space("triangle", "DP", 1)
+        u, v = TrialFunction(V), TestFunction(V)
+        return [inner(ufl.jump(u), ufl.jump(v)) * ufl.dS + inner(ufl.avg(u), ufl.avg(v)) * ufl.dS]
+
+    def mixed_divdiv():
+        m = corpus.mesh("triangle")
+        W = FunctionSpace(m, basix.ufl.mixed_element([basix.ufl.element("P", "triangle", 2, shape=(2,)), basix.ufl.element("P", "triangle", 1)]))
+        (u, p) = ufl.TrialFunctions(W)
+        (v, q) = ufl.TestFunctions(W)
+        return [ufl.div(u) * ufl.div(v) * dx + p * q * dx]
+
+    def functional():
+        m, V = corpus.space("triangle", "P", 1)
+        f = Coefficient(V)
+        return [f * f * dx]
+    return [corpus.Entry("diag_p2", p2), corpus.Entry("diag_vec", vec), corpus.Entry("diag_mixed", mixed), corpus.Entry("diag_facet", facet),
+            corpus.Entry("diag_interior_facet", interior), corpus.Entry("diag_mixed_divdiv", mixed_divdiv), corpus.Entry("diag_functional", functional)]
 
 
 def _pair(e, optA, optB, seed, diag=False):
